@@ -66,7 +66,6 @@ const (
 // ManyIts: a case that allows more open iterators than this keeps a per-position count of the iterators (runner.cnt)
 // instead of scanning the list of open iterators at every call; the verdicts and the classification are the same.
 const ManyIts = 64
-var forceMany bool
 
 // MaxKeys bounds the key alphabet.
 const MaxKeys = 8192
@@ -487,7 +486,7 @@ func Run(c Case, structural bool) (info Info, v *vstat.Violation) {
 	if c.MaxIt < 0 {
 		c.MaxIt = 0
 	}
-	r := &runner{c: c, structural: structural, info: &info, many: c.MaxIt > ManyIts || forceMany}
+	r := &runner{c: c, structural: structural, info: &info, many: c.MaxIt > ManyIts}
 	runCount++
 	r.id = runCount
 	inFlight.Store(r)
